@@ -487,4 +487,71 @@ theorem C08_gen_filter_loop :
     ∧ SerfModel.Gen.FilterLoop.defaultCase = ["return false"]
     ∧ SerfModel.Gen.FilterLoop.afterLoop = "return true" := by decide
 
+/-! ### Tag changes on a running node: every filter is judged against the tags in effect
+when the query arrives. -/
+
+theorem runQT_cfg (h : List QIn) : ∀ (cfg : NodeCfg) (b : Buf Nat),
+    (runQT re cfg b h).1 = { cfg with tags := tagsAfter cfg.tags h } := by
+  induction h with
+  | nil => intro cfg b; rfl
+  | cons i rest ih =>
+    intro cfg b
+    cases i with
+    | query q => simp only [runQT, tagsAfter]; exact ih cfg _
+    | setTags t => simp only [runQT, tagsAfter]; rw [ih]
+
+theorem runQT_append (h1 h2 : List QIn) : ∀ (cfg : NodeCfg) (b : Buf Nat),
+    runQT re cfg b (h1 ++ h2) =
+      ((runQT re (runQT re cfg b h1).1 (runQT re cfg b h1).2.1 h2).1,
+       (runQT re (runQT re cfg b h1).1 (runQT re cfg b h1).2.1 h2).2.1,
+       (runQT re cfg b h1).2.2 ++ (runQT re (runQT re cfg b h1).1 (runQT re cfg b h1).2.1 h2).2.2) := by
+  induction h1 with
+  | nil => intro cfg b; simp [runQT]
+  | cons i rest ih =>
+    intro cfg b
+    cases i with
+    | query q => simp [runQT, ih]
+    | setTags t => simp [runQT, ih]
+
+/-- **Delivered ⇔ first seen in the window ∧ selected under the tags IN EFFECT.**  After
+any history of queries and `SetTags` calls on the same node, a query is delivered
+exactly when it is first-in-window and every filter passes for the node's name and
+the tags of the LAST `SetTags` (the initial ones if there was none) — whatever the
+same filter bytes evaluated to earlier under other tags. -/
+theorem C08_delivered_iff_tags_in_effect (cfg : NodeCfg) (b : Buf Nat) (h : List QIn) (q : QueryMsg) :
+    let st := runQT re cfg b h
+    (runQT re cfg b (h ++ [.query q])).2.2 = st.2.2 ++ [(handleQuery re { cfg with tags := tagsAfter cfg.tags h } st.2.1 q).2]
+    ∧ ((handleQuery re { cfg with tags := tagsAfter cfg.tags h } st.2.1 q).2.delivered = true ↔
+        (firstInWindow st.2.1 q ∧ ∀ f ∈ q.filters, passes re { cfg with tags := tagsAfter cfg.tags h } f = true)) := by
+  intro st
+  refine ⟨?_, C08_delivered_iff re _ _ q⟩
+  rw [runQT_append]
+  simp only [runQT, runQT_cfg]
+  rfl
+
+-- non-vacuity / the seeded shape: the same tag filter `role ~ ^w` is sent before and after
+-- `SetTags role=db`; the first query is delivered, the second is not.
+example : ((runQT exRe exCfg (Buf.init 4)
+    [.query exQ1, .setTags [("role", "db")], .query { exQ1 with lt := 6#64 }]).2.2.map (·.delivered)) = [true, false] := by
+  decide
+
+/-- A node that REMEMBERS tag-filter verdicts by filter (the broken shape: a memo table keyed
+by the encoded filter, never invalidated). -/
+def evalMemo (cfg : NodeCfg) (memo : List (Filter × Bool)) (f : Filter) : Bool × List (Filter × Bool) :=
+  match f with
+  | .tag _ _ =>
+    match alookup memo f with
+    | some v => (v, memo)
+    | none => (passes re cfg f, memo ++ [(f, passes re cfg f)])
+  | _ => (passes re cfg f, memo)
+
+/-- **Negation witness for the memoised shape**: evaluate `role ~ ^w` under `role=web`
+(remembered: selected), change the tags to `role=db`, evaluate the same filter again —
+the remembered verdict says "selected", the property (`passes` under the tags in effect)
+says "not selected". -/
+theorem C08_memo_counterexample :
+    (evalMemo exRe { exCfg with tags := [("role", "db")] }
+        (evalMemo exRe exCfg [] (.tag "role" "^w")).2 (.tag "role" "^w")).1
+      ≠ passes exRe { exCfg with tags := [("role", "db")] } (.tag "role" "^w") := by decide
+
 end SerfProofs.C08
